@@ -8,7 +8,9 @@ Values `V`: a number is an opaque scalar, a string a string, `{"l":[..]}` a list
 over the request's key alphabet `names` is `{"D":[[i,v],..]}` (key number, value; only the keys present — the form of
 every reply) or, in requests, also the array of all its slots (`null` = key absent).
 Data (`Raw`): a number, an array (tuple) of data, or `{"ctx":D}` (a dictionary inside the data).  Getter fixtures:
-`{"tag":i}` is `x ↦ (i, x)`, `{"pairw":i,"k":slot,"n":n}` is `x ↦ (x, {"w": i})`, `"first"` is `x ↦ x[0]`; the strings
+`{"tag":i}` is `x ↦ (i, x)`, `{"pairw":i,"k":slot,"n":n}` is `x ↦ (x, {"w": i})`, `"first"` is `x ↦ x[0]`,
+`{"const":d}` is `x ↦ d`, `{"sw":[[a,b],…](,"tag":i)}` maps the scalar `a` to `b` and is `x ↦ x` (resp. `(i, x)`) otherwise
+(data scalars `None`, `False`, `0.0`, `''`, … are int codes beyond ±10⁶); the strings
 `"variable"` / `"notcallable"` stand for a getter that is a `Variable` / not callable.
 Expressions `E`:
   {"k":"var","name":V,"getter":G,"type":V,"kw":D} | {"k":"compose","args":[E..],"kw":D}
@@ -115,24 +117,55 @@ def errName : Err → String
   | .attributeError => "Other:AttributeError"
   | .indexError => "Other:IndexError"
 
+/-- equality of a datum with a literal of a `sw` table: scalars (ints; `None`, booleans, floats, `''`, an exception
+object are int codes beyond ±10⁶, as in contexts) and the empty tuple -/
+def scalarEq : Raw → Raw → Bool
+  | .int a, .int b => a == b
+  | .tuple [], .tuple [] => true
+  | _, _ => false
+
+/-- the pairs `[[from, to], …]` of a `sw` table -/
+def toTable (n : Nat) (a : Array Json) : Option (List (Data × Data)) :=
+  a.toList.mapM (fun p =>
+    match p with
+    | .arr #[x, y] =>
+      match toData n x, toData n y with
+      | some dx, some dy => some (dx, dy)
+      | _, _ => none
+    | _ => none)
+
 /-- the getter fixtures: `{"tag":i}` is `x ↦ (i, x)`; `{"pairw":i,"k":slot}` is `x ↦ (x, {"w": i})` (data that looks
-like a `(data, context)` pair; `k` = the slot of `"w"`, `n` slots); `"first"` is `x ↦ x[0]` for a non-empty tuple, else `x` -/
-def toGetter (j : Json) : Option (GetterArg Data) :=
+like a `(data, context)` pair; `k` = the slot of `"w"`, `n` slots); `"first"` is `x ↦ x[0]` for a non-empty tuple, else `x`;
+`{"const":d}` is `x ↦ d` (a getter whose result is `None`, falsy, a container, … whatever it is given);
+`{"sw":[[a,b],…]}` / `{"sw":[[a,b],…],"tag":i}` is `x ↦ b` for the first pair with `x` equal to the scalar `a`, else `x`
+(the very object it was given) resp. `(i, x)` (a getter that treats `None`, falsy values, `()` specially) -/
+def toGetter (n : Nat) (j : Json) : Option (GetterArg Data) :=
   match j with
   | .str "variable" => some .variable
   | .str "notcallable" => some .notCallable
   | .str "first" => some (.fn (fun x => match x with | .tuple (a :: _) => a | y => y))
   | _ =>
-    match int? (getD j "tag"), int? (getD j "pairw"), nat? (getD j "k"), nat? (getD j "n") with
-    | some i, _, _, _ => some (.fn (fun x => Raw.tuple [Raw.int i, x]))
-    | _, some i, some k, some n => some (.fn (fun x => Raw.tuple [x, Raw.dict (setSlot (emptyD n) k (some (.int i)))]))
-    | _, _, _, _ => none
+    match (j.getObjVal? "const").toOption, arr? (getD j "sw") with
+    | some c, _ => (toData n c).map (fun d => .fn (fun _ => d))
+    | _, some a =>
+      (toTable n a).map (fun tbl => .fn (fun x =>
+        match tbl.find? (fun p => scalarEq p.1 x) with
+        | some p => p.2
+        | none =>
+          match int? (getD j "tag") with
+          | some i => Raw.tuple [Raw.int i, x]
+          | none => x))
+    | _, _ =>
+      match int? (getD j "tag"), int? (getD j "pairw"), nat? (getD j "k"), nat? (getD j "n") with
+      | some i, _, _, _ => some (.fn (fun x => Raw.tuple [Raw.int i, x]))
+      | _, some i, some k, some n => some (.fn (fun x => Raw.tuple [x, Raw.dict (setSlot (emptyD n) k (some (.int i)))]))
+      | _, _, _, _ => none
 
 partial def toExpr (n : Nat) (j : Json) : Option (Expr Data) :=
   match str? (getD j "k") with
   | some "other" => some .other
   | some "var" =>
-    match toV n (getD j "name"), toGetter (getD j "getter"), toV n (getD j "type"), toD n (getD j "kw") with
+    match toV n (getD j "name"), toGetter n (getD j "getter"), toV n (getD j "type"), toD n (getD j "kw") with
     | some nm, some g, some t, some kw => some (.var nm g t kw)
     | _, _, _, _ => none
   | some "compose" =>
